@@ -15,7 +15,9 @@
    handed is decodable from what it had emitted — brotli's flush contract) and the DecoderLaws
    of CompFailSafeProofs.v (brotli is external); the calls before the flush must be `clean`
    (no short source: a short source leaves a block whose announced length is wrong, D8). *)
+From MLA Require Import Limit.
 From MLA Require Import Base Stream Blocks Writer EncLayer EncWriter EncWriterProofs EncFlushProofs FlushProofs Inst.
+From MLAGen Require Src.
 Open Scope N_scope.
 
 (* the writer state after writing buf from a state that has absorbed p has absorbed p ++ buf *)
@@ -51,7 +53,7 @@ Theorem C14_auth_len_bounds :
 Proof. exact ew_auth_len_bounds. Qed.
 
 (* the archive writer only appends to its block stream *)
-Theorem C14_wstep_out_prefix :
+Theorem C14_wstep_out_prefix {LIM : Limit} :
   forall FNMAX TS TC TA TE H order s o s' r,
     wstep FNMAX TS TC TA TE H order s o = (s', r) -> prefix (w_out s) (w_out s').
 Proof. exact wstep_out_prefix. Qed.
@@ -59,7 +61,7 @@ Proof. exact wstep_out_prefix. Qed.
 (* encryption on, no compression, at the level of the LAYER OUTPUT: from the flushed bytes the
    unauthenticated fail-safe reader yields the block stream, which holds every successful
    append as a complete content block (the end-to-end statements are in part 4) *)
-Theorem C14_flush_enc_layer_output :
+Theorem C14_flush_enc_layer_output {LIM : Limit} :
   forall FNMAX TS TC TA TE H order CHUNK TAG CIPHERBUF, 0 < CHUNK -> 0 < TAG ->
   forall ks tagc, (forall i c, len (tagc i c) = TAG) ->
   forall ops s rs pieces fuelw es fuel n,
@@ -87,7 +89,7 @@ Theorem C14_flush_enc_auth_layer_output :
 Proof. exact (flush_durable_enc_auth (fun b => b)). Qed.
 
 (* no encryption, no compression: the flushed bytes ARE the block stream *)
-Theorem C14_wrun_blocks :
+Theorem C14_wrun_blocks {LIM : Limit} :
   forall FNMAX TS TC TA TE H order ops s s' rs,
     wrun FNMAX TS TC TA TE H order s ops = (s', rs) ->
     Forall (fun x => clean (fst x) (snd x)) (combine ops rs) ->
@@ -127,7 +129,7 @@ Proof. vm_compute. repeat split; reflexivity. Qed.
 (* the hypotheses of C14_flush_enc_layer_output are met by a concrete run *)
 Example C14_example_archive :
   let ops := [OStart [97]; OAppend 0 70 (map N.of_nat (seq 0 70)); OStart [98]; OAppend 1 2 [7; 8]; OAppend 0 0 []; OFlush] in
-  let '(s, rs) := wrun 48 0 1 254 255 (fun b => [len b]) (fun f => f) w_init ops in
+  let '(s, rs) := wrun (LIM := Src.BINCODE_MAX_DESERIALIZE_prod) 48 0 1 254 255 (fun b => [len b]) (fun f => f) w_init ops in
   Forall (fun x => clean (fst x) (snd x)) (combine ops rs) /\
   match ew_write_pieces 64 24 toy_ks (toy_tag 16) 300 ew_init [takeN 30 (w_out s); dropN 30 (w_out s)] with
   | Ok es => fs_read_all 64 16 toy_ks (toy_tag 16) (Cursor (ew_out es)) true 300 0 32 = Ok (w_out s) /\ 128 < len (w_out s)
@@ -167,7 +169,7 @@ Print Assumptions C14_wrun_blocks.
 From MLA Require Import Repair RepairSpec RepairPure RepairProofs2 RepairProofs5 RepairProofs6 EncAuthFs Run
   ComposeRdOnly ComposeRepair ComposeWriterRun ComposeFlush.
 
-Theorem C14_clean_run_blocks :
+Theorem C14_clean_run_blocks {LIM : Limit} :
   forall FNMAX TS TC TA TE H order ops s rs,
     wrun FNMAX TS TC TA TE H order w_init ops = (s, rs) ->
     Forall (fun x => clean (fst x) (snd x)) (combine ops rs) ->
@@ -177,7 +179,7 @@ Theorem C14_clean_run_blocks :
       forall id, data_of_id (files_of bl) id = appended FNMAX TS TC TA TE H order id w_init ops.
 Proof. exact clean_run_blocks. Qed.
 
-Theorem C14_flush_then_repair_plain :
+Theorem C14_flush_then_repair_plain {LIM : Limit} :
   forall FNMAX CACHE : N, FNMAX < 2 ^ 64 -> 0 < CACHE ->
   forall TS TC TA TE : N,
     TS <> TC /\ TS <> TA /\ TS <> TE /\ TC <> TA /\ TC <> TE /\ TA <> TE ->
@@ -188,6 +190,9 @@ Theorem C14_flush_then_repair_plain :
     Forall op_ok ops -> w_next s < 2 ^ 64 ->
   forall (S : Stream) (I : st S -> N -> Prop) (s0 : st S) (fuel : nat),
     RdRefines (rd S) (w_out s) I -> I s0 0 -> (N.to_nat (len (w_out s)) < fuel)%nat ->
+    (* finalize did not fail with SerializationError: the footer of the repaired archive is
+       within BINCODE_MAX_DESERIALIZE (lim) and the u32 length field *)
+    repair FNMAX CACHE TS TC TA TE H S fuel s0 w_init <> Err EDeser ->
     exists bl out obl,
       w_out s = body TS TC TA TE bl /\ wf_blocks FNMAX H bl /\ w_files s = name_list (files_of bl) /\
       repair FNMAX CACHE TS TC TA TE H S fuel s0 w_init
@@ -197,7 +202,7 @@ Theorem C14_flush_then_repair_plain :
         content_of (files_of obl) name = appended FNMAX TS TC TA TE H order id w_init ops.
 Proof. exact flush_then_repair_plain. Qed.
 
-Theorem C14_flush_then_repair_enc :
+Theorem C14_flush_then_repair_enc {LIM : Limit} :
   forall FNMAX CACHE : N, FNMAX < 2 ^ 64 -> 0 < CACHE ->
   forall TS TC TA TE : N,
     TS <> TC /\ TS <> TA /\ TS <> TE /\ TC <> TA /\ TC <> TE /\ TA <> TE ->
@@ -214,16 +219,20 @@ Theorem C14_flush_then_repair_enc :
     len (w_out s) / CHUNK < 2 ^ 32 -> len (ew_out es) / (CHUNK + TAG) + 2 <= 2 ^ 32 ->
   forall fuel : nat, (N.to_nat (len (w_out s)) < fuel)%nat ->
     exists e0 b, fs_open CHUNK TAG ks (Cursor (ew_out es)) 0 = (e0, Ok b) /\
+    (* finalize did not fail with SerializationError: the footer of the repaired archive is
+       within BINCODE_MAX_DESERIALIZE (lim) and the u32 length field *)
+    (repair FNMAX CACHE TS TC TA TE H (FsEnc CHUNK TAG ks tagc true (Cursor (ew_out es))) fuel e0 w_init
+       <> Err EDeser ->
     exists bl out obl,
       w_out s = body TS TC TA TE bl /\ wf_blocks FNMAX H bl /\ w_files s = name_list (files_of bl) /\
       repair FNMAX CACHE TS TC TA TE H (FsEnc CHUNK TAG ks tagc true (Cursor (ew_out es))) fuel e0 w_init
         = Ok (FEofNextBlock, unfinished_of (files_of bl), out) /\
       good_output FNMAX TS TC TA TE H out obl /\ Forall2 same (files_of bl) (files_of obl) /\
       forall name id, In (name, id) (w_files s) ->
-        content_of (files_of obl) name = appended FNMAX TS TC TA TE H order id w_init ops.
+        content_of (files_of obl) name = appended FNMAX TS TC TA TE H order id w_init ops).
 Proof. exact flush_then_repair_enc. Qed.
 
-Theorem C14_flush_then_repair_enc_auth :
+Theorem C14_flush_then_repair_enc_auth {LIM : Limit} :
   forall FNMAX CACHE : N, FNMAX < 2 ^ 64 -> 0 < CACHE ->
   forall TS TC TA TE : N,
     TS <> TC /\ TS <> TA /\ TS <> TE /\ TC <> TA /\ TC <> TE /\ TA <> TE ->
@@ -240,6 +249,8 @@ Theorem C14_flush_then_repair_enc_auth :
     len (w_out s) / CHUNK < 2 ^ 32 -> len (ew_out es) / (CHUNK + TAG) + 2 <= 2 ^ 32 ->
   forall fuel : nat, (N.to_nat (len (w_out s)) < fuel)%nat ->
     exists e0 b, fs_open CHUNK TAG ks (Cursor (ew_out es)) 0 = (e0, Ok b) /\
+    (repair FNMAX CACHE TS TC TA TE H (FsEnc CHUNK TAG ks tagc false (Cursor (ew_out es))) fuel e0 w_init
+       <> Err EDeser ->
     exists m bl status unfinished out obl,
       ew_ctr es * CHUNK <= m /\ m <= len (w_out s) /\ (ew_ctr es = 0 -> m = len (w_out s)) /\
       w_out s = body TS TC TA TE bl /\ wf_blocks FNMAX H bl /\ w_files s = name_list (files_of bl) /\
@@ -247,11 +258,14 @@ Theorem C14_flush_then_repair_enc_auth :
         = Ok (status, unfinished, out) /\
       good_output FNMAX TS TC TA TE H out obl /\
       (forall f, In f (files_of bl) -> content_of (files_of obl) (f_name f) = present (f_id f) bl m) /\
-      (forall id, data_of_id (files_of bl) id = appended FNMAX TS TC TA TE H order id w_init ops).
+      (forall id, data_of_id (files_of bl) id = appended FNMAX TS TC TA TE H order id w_init ops)).
 Proof. exact flush_then_repair_enc_auth. Qed.
 
 (* non-vacuity: the run of C14_example_archive (two files open, 70 + 2 bytes appended, one
-   empty append, flush), CHUNK = 64, TAG = 16, CIPHERBUF = 24, toy cipher *)
+   empty append, flush), CHUNK = 64, TAG = 16, CIPHERBUF = 24, toy cipher.  The examples are
+   computed: the bincode limit is the production value of gen/Src.v (example-only section) *)
+Section C14_examples_part2.
+Local Hint Extern 0 Limit => exact Src.BINCODE_MAX_DESERIALIZE_prod : typeclass_instances.
 Definition ex_H (x : bytes) : bytes := map (fun i => (len x + 3 * N.of_nat i) mod 256) (seq 0 32).
 Lemma ex_H_len x : len (ex_H x) = 32.
 Proof. unfold ex_H, len. rewrite map_length, seq_length. reflexivity. Qed.
@@ -282,7 +296,16 @@ Proof.
               [takeN 30 (w_out (fst ex_run)); dropN 30 (w_out (fst ex_run))] 300%nat ex_es
               ltac:(vm_compute; reflexivity) ltac:(vm_compute; reflexivity)
               ltac:(vm_compute; reflexivity) ltac:(vm_compute; discriminate) 300%nat ltac:(vm_compute; lia))
-    as (e0 & b & Ho & bl & out & obl & Hout & Hwf & Hfiles & Hr & Hg & Hs & Hc).
+    as (e0 & b & Ho & Hcon).
+  assert (Hser : repair 48 4 0 1 254 255 ex_H (FsEnc 64 16 toy_ks (toy_tag 16) true (Cursor (ew_out ex_es))) 300 e0 w_init
+                 <> Err EDeser).
+  { assert (Hv : match fs_open 64 16 toy_ks (Cursor (ew_out ex_es)) 0 with
+                 | (e0', _) =>
+                   repair 48 4 0 1 254 255 ex_H (FsEnc 64 16 toy_ks (toy_tag 16) true (Cursor (ew_out ex_es))) 300 e0' w_init
+                   <> Err EDeser
+                 end) by (vm_compute; discriminate).
+    rewrite Ho in Hv. exact Hv. }
+  destruct (Hcon Hser) as (bl & out & obl & Hout & Hwf & Hfiles & Hr & Hg & Hs & Hc).
   exists e0, b, out, obl. split; [exact Ho|].
   assert (Hu : unfinished_of (files_of bl) = [[97]; [98]]).
   { assert (Hv : match fs_open 64 16 toy_ks (Cursor (ew_out ex_es)) 0 with
@@ -296,6 +319,7 @@ Proof.
   - rewrite (Hc [97] 0) by (vm_compute; auto). vm_compute. reflexivity.
   - rewrite (Hc [98] 1) by (vm_compute; auto). vm_compute. reflexivity.
 Qed.
+End C14_examples_part2.
 
 Print Assumptions C14_clean_run_blocks.
 Print Assumptions C14_flush_then_repair_plain.
@@ -356,6 +380,7 @@ Print Assumptions C14_fs_comp_example.
 From MLA Require Import EncAuth RepairMask ComposeFlushAt CompFailSafeSticky FsCompStream ComposeFsComp ComposeFlushComp.
 
 Section C14_flush_at_any_position.
+  Context {LIM : Limit}.
   Variables FNMAX CACHE : N.
   Hypothesis HFN : FNMAX < 2 ^ 64.
   Hypothesis HCACHE : 0 < CACHE.
@@ -382,6 +407,8 @@ Section C14_flush_at_any_position.
   Theorem C14_flush_durable_plain :
     forall (S : Stream) (I : st S -> N -> Prop) (s0 : st S) (fuel : nat),
       RdRefines (rd S) (w_out s) I -> I s0 0 -> (N.to_nat (len (w_out s)) < fuel)%nat ->
+      (* finalize did not fail with SerializationError (footer within BINCODE_MAX_DESERIALIZE) *)
+      repair FNMAX CACHE TS TC TA TE H S fuel s0 w_init <> Err EDeser ->
       exists bl out obl,
         w_out s = body TS TC TA TE bl /\ wf_blocks FNMAX H bl /\ w_files s = name_list (files_of bl) /\
         repair FNMAX CACHE TS TC TA TE H S fuel s0 w_init
@@ -418,13 +445,15 @@ Section C14_flush_at_any_position.
     Theorem C14_flush_durable_enc :
       forall fuel : nat, (N.to_nat (len (w_out s)) < fuel)%nat ->
       exists e0 b, fs_open CHUNK TAG ks Sin i0 = (e0, Ok b) /\
+      (* finalize did not fail with SerializationError (footer within BINCODE_MAX_DESERIALIZE) *)
+      (repair FNMAX CACHE TS TC TA TE H (FsEnc CHUNK TAG ks tagc true Sin) fuel e0 w_init <> Err EDeser ->
       exists bl out obl,
         w_out s = body TS TC TA TE bl /\ wf_blocks FNMAX H bl /\ w_files s = name_list (files_of bl) /\
         repair FNMAX CACHE TS TC TA TE H (FsEnc CHUNK TAG ks tagc true Sin) fuel e0 w_init
           = Ok (FEofNextBlock, unfinished_of (files_of bl), out) /\
         good_output FNMAX TS TC TA TE H out obl /\ Forall2 same (files_of bl) (files_of obl) /\
         forall name id, In (name, id) (w_files s) ->
-          content_of (files_of obl) name = appended FNMAX TS TC TA TE H order id w_init pre.
+          content_of (files_of obl) name = appended FNMAX TS TC TA TE H order id w_init pre).
     Proof.
       exact (flush_at_enc FNMAX CACHE HFN HCACHE TS TC TA TE Htags H H_len order pre post sfin rsall
                Hrun Hclean Hops Hnext CHUNK TAG CIPHERBUF HCHUNK HTAG ks tagc Htagc pieces fuelw es
@@ -436,6 +465,7 @@ Section C14_flush_at_any_position.
     Theorem C14_flush_durable_enc_auth :
       forall fuel : nat, (N.to_nat (len (w_out s)) < fuel)%nat ->
       exists e0 b, fs_open CHUNK TAG ks Sin i0 = (e0, Ok b) /\
+      (repair FNMAX CACHE TS TC TA TE H (FsEnc CHUNK TAG ks tagc false Sin) fuel e0 w_init <> Err EDeser ->
       exists m bl status unfinished out obl,
         ew_ctr es * CHUNK <= m /\ m <= len (w_out s) /\ (ew_ctr es = 0 -> m = len (w_out s)) /\
         w_out s = body TS TC TA TE bl /\ wf_blocks FNMAX H bl /\ w_files s = name_list (files_of bl) /\
@@ -443,7 +473,7 @@ Section C14_flush_at_any_position.
           = Ok (status, unfinished, out) /\
         good_output FNMAX TS TC TA TE H out obl /\
         (forall f, In f (files_of bl) -> content_of (files_of obl) (f_name f) = present (f_id f) bl m) /\
-        (forall id, data_of_id (files_of bl) id = appended FNMAX TS TC TA TE H order id w_init pre).
+        (forall id, data_of_id (files_of bl) id = appended FNMAX TS TC TA TE H order id w_init pre)).
     Proof.
       exact (flush_at_enc_auth FNMAX CACHE HFN HCACHE TS TC TA TE Htags H H_len order pre post sfin rsall
                Hrun Hclean Hops Hnext CHUNK TAG CIPHERBUF HCHUNK HTAG ks tagc Htagc pieces fuelw es
@@ -479,6 +509,9 @@ Section C14_flush_at_any_position.
     Theorem C14_flush_durable_comp :
       forall (Sin : Stream) (Rin : st Sin -> N -> Prop) (i0 : st Sin) (fuel : nat),
         SrcRefines Sin w Rin -> Rin i0 0 -> (N.to_nat (len (w_out s)) < fuel)%nat ->
+        (* finalize did not fail with SerializationError (footer within BINCODE_MAX_DESERIALIZE) *)
+        repair FNMAX CACHE TS TC TA TE H (FsComp BLOCK FSBUF dstate dinit dstep pfuel Sin) fuel (FReady i0) w_init
+          <> Err EDeser ->
         exists bl status out obl,
           w_out s = body TS TC TA TE bl /\ wf_blocks FNMAX H bl /\ w_files s = name_list (files_of bl) /\
           repair FNMAX CACHE TS TC TA TE H (FsComp BLOCK FSBUF dstate dinit dstep pfuel Sin) fuel (FReady i0) w_init
@@ -514,6 +547,9 @@ Section C14_flush_at_any_position.
       Theorem C14_flush_durable_comp_enc :
         forall fuel : nat, (N.to_nat (len (w_out s)) < fuel)%nat ->
         exists e0 b, fs_open CHUNK TAG ks Sin i0 = (e0, Ok b) /\
+        (repair FNMAX CACHE TS TC TA TE H
+                (FsComp BLOCK FSBUF dstate dinit dstep pfuel (FsEnc CHUNK TAG ks tagc true Sin)) fuel
+                (@FReady dstate (FsEnc CHUNK TAG ks tagc true Sin) e0) w_init <> Err EDeser ->
         exists bl status out obl,
           w_out s = body TS TC TA TE bl /\ wf_blocks FNMAX H bl /\ w_files s = name_list (files_of bl) /\
           repair FNMAX CACHE TS TC TA TE H
@@ -522,7 +558,7 @@ Section C14_flush_at_any_position.
             = Ok (status, unfinished_of (files_of bl), out) /\
           good_output FNMAX TS TC TA TE H out obl /\ Forall2 same (files_of bl) (files_of obl) /\
           forall name id, In (name, id) (w_files s) ->
-            content_of (files_of obl) name = appended FNMAX TS TC TA TE H order id w_init pre.
+            content_of (files_of obl) name = appended FNMAX TS TC TA TE H order id w_init pre).
       Proof.
         exact (flush_at_comp_enc FNMAX CACHE HFN HCACHE TS TC TA TE Htags H H_len order pre post sfin rsall
                  Hrun Hclean Hops Hnext BLOCK FSBUF HFSBUF HBLOCK32 dstate dinit dstep D fin L tail Htail
@@ -536,6 +572,9 @@ Section C14_flush_at_any_position.
       Theorem C14_flush_durable_comp_enc_auth :
         forall fuel : nat, (N.to_nat (len (w_out s)) < fuel)%nat ->
         exists e0 b, fs_open CHUNK TAG ks Sin i0 = (e0, Ok b) /\
+        (repair FNMAX CACHE TS TC TA TE H
+                (FsComp BLOCK FSBUF dstate dinit dstep pfuel (FsEnc CHUNK TAG ks tagc false Sin)) fuel
+                (@FReady dstate (FsEnc CHUNK TAG ks tagc false Sin) e0) w_init <> Err EDeser ->
         exists m k bl status unfinished out obl,
           ew_ctr es * CHUNK <= m /\ m <= len w /\ (ew_ctr es = 0 -> m = len w) /\
           k = len (fs_spec D bs (takeN m w)) /\ k <= len (w_out s) /\
@@ -546,7 +585,7 @@ Section C14_flush_at_any_position.
             = Ok (status, unfinished, out) /\
           good_output FNMAX TS TC TA TE H out obl /\
           (forall f, In f (files_of bl) -> content_of (files_of obl) (f_name f) = present (f_id f) bl k) /\
-          (forall id, data_of_id (files_of bl) id = appended FNMAX TS TC TA TE H order id w_init pre).
+          (forall id, data_of_id (files_of bl) id = appended FNMAX TS TC TA TE H order id w_init pre)).
       Proof.
         exact (flush_at_comp_enc_auth FNMAX CACHE HFN HCACHE TS TC TA TE Htags H H_len order pre post sfin rsall
                  Hrun Hclean Hops Hnext BLOCK FSBUF HFSBUF HBLOCK32 dstate dinit dstep D fin L tail Htail
@@ -567,7 +606,7 @@ Proof. exact @fs_spec_flush_point. Qed.
 
 (* the two facts behind the compressed combinations: over the decompressor the repair loop
    recovers exactly what it recovers over a cursor on the decompressor's total output ... *)
-Theorem C14_repair_over_decompressor :
+Theorem C14_repair_over_decompressor {LIM : Limit} :
   forall BLOCK FSBUF : N, 0 < FSBUF -> BLOCK < 2 ^ 32 ->
   forall (dstate : Type) (dinit : dstate) dstep D fin, DecoderLaws dinit dstep D fin ->
   forall tail, dead D fin tail ->
@@ -582,6 +621,8 @@ Theorem C14_repair_over_decompressor :
     wf_blocks FNMAX H bl -> In BEnd bl \/ trailer = [] ->
     prefix (fs_spec D bs w) (body TS TC TA TE bl ++ trailer) ->
     Rin i0 0 -> (N.to_nat (len (fs_spec D bs w)) < fuel)%nat ->
+    repair FNMAX CACHE TS TC TA TE H (FsComp BLOCK FSBUF dstate dinit dstep pfuel Sin) fuel (FReady i0) w_init
+      <> Err EDeser ->
     exists status out obl,
       repair FNMAX CACHE TS TC TA TE H (FsComp BLOCK FSBUF dstate dinit dstep pfuel Sin) fuel (FReady i0) w_init
         = Ok (status, unfinished_of (recovered bl (len (fs_spec D bs w))), out) /\
@@ -591,7 +632,7 @@ Proof. exact repair_fscomp_exact. Qed.
 
 (* ... and a source whose first error is replaced by an eternal Ok(0) (the ghost stream
    RepairMask.Mask) gives the same output archive and unfinished list *)
-Theorem C14_repair_error_ending_source :
+Theorem C14_repair_error_ending_source {LIM : Limit} :
   forall (S : Stream) (FNMAX CACHE TS TC TA TE : N) (H : bytes -> bytes) fuel s0 out0 status' unfinished out,
     repair FNMAX CACHE TS TC TA TE H (Mask S) fuel (Some s0) out0 = Ok (status', unfinished, out) ->
     exists status, repair FNMAX CACHE TS TC TA TE H S fuel s0 out0 = Ok (status, unfinished, out).
@@ -611,7 +652,23 @@ Print Assumptions C14_repair_error_ending_source.
 (* ---------- non-vacuity of part 4 ----------
    the calls of C14_example_flush_then_repair up to the flush (two files open, 70 + 2 bytes
    appended, one empty and one refused append), then the flush, then more calls (an append,
-   an end_file, finalize) of which nothing is asked *)
+   an end_file, finalize) of which nothing is asked.  Computed examples: the bincode limit is the
+   production value of gen/Src.v (example-only section) *)
+(* `repair ... e0 w_init <> Err EDeser` on a concrete instance, e0 being the state returned by the
+   (concrete) fs_open of Ho: by evaluation *)
+Ltac prove_ser Ho :=
+  match type of Ho with ?op = (?es, _) =>
+    match goal with |- ?G =>
+      let P := eval pattern es in G in
+      match P with ?F _ =>
+        let Hv := fresh "Hv" in
+        assert (Hv : F (fst op)) by (vm_compute; discriminate);
+        rewrite Ho in Hv; exact Hv
+      end
+    end
+  end.
+Section C14_examples_part4.
+Local Hint Extern 0 Limit => exact Src.BINCODE_MAX_DESERIALIZE_prod : typeclass_instances.
 Definition ex_pre : list wop :=
   [OStart [97]; OAppend 0 70 (map N.of_nat (seq 0 70)); OStart [98]; OAppend 1 2 [7; 8]; OAppend 0 0 [];
    OAppend 5 1 [1]].
@@ -644,7 +701,7 @@ Proof.
               ex_all_run ex_pre_clean ex_pre_ok ex_s_next
               (Throttled (w_out ex_s)) (fun st p => fst st = p /\ p <= len (w_out ex_s)) (0, [3]) 300%nat
               (fun st q n HI => ref_rd _ _ _ (throttled_refines (w_out ex_s)) st q n HI)
-              (conj eq_refl (N.le_0_l _)) ltac:(vm_compute; lia))
+              (conj eq_refl (N.le_0_l _)) ltac:(vm_compute; lia) ltac:(vm_compute; discriminate))
     as (bl & out & obl & Hout & Hwf & Hfiles & Hr & Hg & Hs & Hc).
   exists bl, out, obl. split; [exact Hr|]. split; [exact Hg|]. split.
   - rewrite (Hc [97] 0) by (vm_compute; auto). vm_compute. reflexivity.
@@ -688,7 +745,8 @@ Proof.
               64 32 ltac:(lia) ltac:(lia) tstate tinit tstep tD tfin toy_laws fsx_tail fsx_dead
               ex_cbs ex_cbs_good ex_cw ex_cw_prefix ex_cw_flush 400%nat ltac:(vm_compute; lia)
               (Throttled ex_cw) (fun st p => fst st = p /\ p <= len ex_cw) (0, [3]) 400%nat
-              (throttled_src ex_cw) (conj eq_refl (N.le_0_l _)) ltac:(vm_compute; lia))
+              (throttled_src ex_cw) (conj eq_refl (N.le_0_l _)) ltac:(vm_compute; lia)
+              ltac:(vm_compute; discriminate))
     as (bl & status & out & obl & Hout & Hwf & Hfiles & Hr & Hg & Hs & Hc).
   exists bl, status, out, obl. split; [exact Hr|]. split; [exact Hg|]. split.
   - rewrite (Hc [97] 0) by (vm_compute; auto). vm_compute. reflexivity.
@@ -726,7 +784,8 @@ Proof.
               ltac:(vm_compute; reflexivity) ltac:(vm_compute; discriminate)
               (Cursor (ew_out ex_ces)) (fun st p => st = p) (cursor_seekable _) 0 eq_refl
               400%nat ltac:(vm_compute; lia))
-    as (e0 & b & Ho & bl & status & out & obl & Hout & Hwf & Hfiles & Hr & Hg & Hs & Hc).
+    as (e0 & b & Ho & Hcon).
+  destruct (Hcon ltac:(prove_ser Ho)) as (bl & status & out & obl & Hout & Hwf & Hfiles & Hr & Hg & Hs & Hc).
   exists e0, b, bl, status, out, obl. split; [exact Ho|]. split; [exact Hr|]. split; [exact Hg|]. split.
   - rewrite (Hc [97] 0) by (vm_compute; auto). vm_compute. reflexivity.
   - rewrite (Hc [98] 1) by (vm_compute; auto). vm_compute. reflexivity.
@@ -753,7 +812,9 @@ Proof.
               ltac:(vm_compute; reflexivity) ltac:(vm_compute; discriminate)
               (Cursor (ew_out ex_ces)) (fun st p => st = p) (cursor_seekable _) 0 eq_refl
               400%nat ltac:(vm_compute; lia))
-    as (e0 & b & Ho & m & k & bl & status & unf & out & obl & B1 & B2 & B3 & Hk & Hkl & Hout & Hwf & Hfiles & Hr & Hg & Hc & Hd).
+    as (e0 & b & Ho & Hcon).
+  destruct (Hcon ltac:(prove_ser Ho))
+    as (m & k & bl & status & unf & out & obl & B1 & B2 & B3 & Hk & Hkl & Hout & Hwf & Hfiles & Hr & Hg & Hc & Hd).
   exists e0, b, m, k, status, unf, out, obl. split; [exact Ho|].
   assert (E1 : ew_ctr ex_ces * 64 = 128) by (vm_compute; reflexivity).
   assert (E2 : len ex_cw = 145) by (vm_compute; reflexivity).
@@ -788,6 +849,7 @@ Example C14_example_repair_over_decompressor :
   | _, _ => False
   end.
 Proof. vm_compute. repeat split; reflexivity. Qed.
+End C14_examples_part4.
 
 Print Assumptions C14_example_flush_at_plain.
 Print Assumptions C14_example_flush_at_comp.
@@ -799,49 +861,49 @@ Print Assumptions C14_example_repair_over_decompressor.
 (* ---------- Tie A, decision logic (tools/src2v2.py -> gen/Src2.v): compression writer: roll-over test and sizes; flush and finalize bodies ---------- *)
 From MLA Require SrcTie2b SrcTie2Events.
 Check SrcTie2b.cw_write_src.
-Theorem C14_tie_cw_write_src : ltac:(let t := type of SrcTie2b.cw_write_src in exact t).
-Proof. exact SrcTie2b.cw_write_src. Qed.
+Theorem C14_tie_cw_write_src : ltac:(let t := type of @SrcTie2b.cw_write_src in exact t).
+Proof. exact (@SrcTie2b.cw_write_src). Qed.
 Print Assumptions C14_tie_cw_write_src.
 Check SrcTie2Events.EV_comp_write_shape.
-Theorem C14_tie_EV_comp_write_shape : ltac:(let t := type of SrcTie2Events.EV_comp_write_shape in exact t).
-Proof. exact SrcTie2Events.EV_comp_write_shape. Qed.
+Theorem C14_tie_EV_comp_write_shape : ltac:(let t := type of @SrcTie2Events.EV_comp_write_shape in exact t).
+Proof. exact (@SrcTie2Events.EV_comp_write_shape). Qed.
 Print Assumptions C14_tie_EV_comp_write_shape.
 Check SrcTie2Events.EV_comp_flush_shape.
-Theorem C14_tie_EV_comp_flush_shape : ltac:(let t := type of SrcTie2Events.EV_comp_flush_shape in exact t).
-Proof. exact SrcTie2Events.EV_comp_flush_shape. Qed.
+Theorem C14_tie_EV_comp_flush_shape : ltac:(let t := type of @SrcTie2Events.EV_comp_flush_shape in exact t).
+Proof. exact (@SrcTie2Events.EV_comp_flush_shape). Qed.
 Print Assumptions C14_tie_EV_comp_flush_shape.
 Check SrcTie2Events.EV_comp_finalize_shape.
-Theorem C14_tie_EV_comp_finalize_shape : ltac:(let t := type of SrcTie2Events.EV_comp_finalize_shape in exact t).
-Proof. exact SrcTie2Events.EV_comp_finalize_shape. Qed.
+Theorem C14_tie_EV_comp_finalize_shape : ltac:(let t := type of @SrcTie2Events.EV_comp_finalize_shape in exact t).
+Proof. exact (@SrcTie2Events.EV_comp_finalize_shape). Qed.
 Print Assumptions C14_tie_EV_comp_finalize_shape.
 Check SrcTie2Events.EV_fs_comp_read_shape.
-Theorem C14_tie_EV_fs_comp_read_shape : ltac:(let t := type of SrcTie2Events.EV_fs_comp_read_shape in exact t).
-Proof. exact SrcTie2Events.EV_fs_comp_read_shape. Qed.
+Theorem C14_tie_EV_fs_comp_read_shape : ltac:(let t := type of @SrcTie2Events.EV_fs_comp_read_shape in exact t).
+Proof. exact (@SrcTie2Events.EV_fs_comp_read_shape). Qed.
 Print Assumptions C14_tie_EV_fs_comp_read_shape.
 
 (* ---------- Tie A, level 1 for the repair loop (tools/src2v3_repair.py -> gen/Src3r.v): `convert_to_archive` as
    translated from /repo on every run is simulated by Repair.repair for every source, fuel and writer state ---------- *)
 From MLA Require SrcTie3Repair SrcTie3RepairLoop.
 Check SrcTie3RepairLoop.convert_to_archive_sim.
-Theorem C14_tie_convert_to_archive_sim : ltac:(let t := type of SrcTie3RepairLoop.convert_to_archive_sim in exact t).
-Proof. exact SrcTie3RepairLoop.convert_to_archive_sim. Qed.
+Theorem C14_tie_convert_to_archive_sim : ltac:(let t := type of @SrcTie3RepairLoop.convert_to_archive_sim in exact t).
+Proof. exact (@SrcTie3RepairLoop.convert_to_archive_sim). Qed.
 Print Assumptions C14_tie_convert_to_archive_sim.
 
 (* ---------- Tie A, level 1: compress.rs translated (work package compT, gen/Src3c.v) ---------- *)
 (* error handling of the translated code: the WriterWithCount latch (first non-Interrupted kind), check_no_error, the fail-safe reader's error arms *)
 From MLA Require SrcTie3CompW SrcTie3CompFs.
-Theorem C14_tie_wwc_write_src : ltac:(let t := type of SrcTie3CompW.wwc_write_src in exact t).
-Proof. exact SrcTie3CompW.wwc_write_src. Qed.
+Theorem C14_tie_wwc_write_src : ltac:(let t := type of @SrcTie3CompW.wwc_write_src in exact t).
+Proof. exact (@SrcTie3CompW.wwc_write_src). Qed.
 Print Assumptions C14_tie_wwc_write_src.
-Theorem C14_tie_wwc_latch_facts : ltac:(let t := type of SrcTie3CompW.wwc_latch_facts in exact t).
-Proof. exact SrcTie3CompW.wwc_latch_facts. Qed.
+Theorem C14_tie_wwc_latch_facts : ltac:(let t := type of @SrcTie3CompW.wwc_latch_facts in exact t).
+Proof. exact (@SrcTie3CompW.wwc_latch_facts). Qed.
 Print Assumptions C14_tie_wwc_latch_facts.
-Theorem C14_tie_wwc_check_no_error_src : ltac:(let t := type of SrcTie3CompW.wwc_check_no_error_src in exact t).
-Proof. exact SrcTie3CompW.wwc_check_no_error_src. Qed.
+Theorem C14_tie_wwc_check_no_error_src : ltac:(let t := type of @SrcTie3CompW.wwc_check_no_error_src in exact t).
+Proof. exact (@SrcTie3CompW.wwc_check_no_error_src). Qed.
 Print Assumptions C14_tie_wwc_check_no_error_src.
-Theorem C14_tie_fs_pass_sim : ltac:(let t := type of SrcTie3CompFs.fs_pass_sim in exact t).
-Proof. exact SrcTie3CompFs.fs_pass_sim. Qed.
+Theorem C14_tie_fs_pass_sim : ltac:(let t := type of @SrcTie3CompFs.fs_pass_sim in exact t).
+Proof. exact (@SrcTie3CompFs.fs_pass_sim). Qed.
 Print Assumptions C14_tie_fs_pass_sim.
-Theorem C14_tie_fs_comp_read_sim : ltac:(let t := type of SrcTie3CompFs.fs_comp_read_sim in exact t).
-Proof. exact SrcTie3CompFs.fs_comp_read_sim. Qed.
+Theorem C14_tie_fs_comp_read_sim : ltac:(let t := type of @SrcTie3CompFs.fs_comp_read_sim in exact t).
+Proof. exact (@SrcTie3CompFs.fs_comp_read_sim). Qed.
 Print Assumptions C14_tie_fs_comp_read_sim.
